@@ -70,7 +70,7 @@ class Frames(Part):
     rule = ("Panel(box, title, title_align, expand, width, padding) | Padding(1/2/4-tuple, expand) | Align(left/center/right, pad, width) | Constrain | Styled around "
             "text | small table | nested frame, W = structural minimum + {0,1,2,3,5,8,13} or 1..120, under utf-8 / ascii-only / legacy-windows consoles; "
             "non-trivial = nested frames, or a child wider than the inner width (it had to wrap)")
-    budget = {"quick": (16, 150), "thorough": (16, 6000)}
+    budget = {"quick": (16, 300), "thorough": (16, 6000)}
     chunk = 150
 
     def strategy(self, tier):
@@ -206,7 +206,7 @@ class Lines(Part):
     rule = ("Rule(title incl. wide, characters incl. wide and multi-character, align) -> one line of exactly W cells; Bar(size, begin, end, width) -> exactly "
             "min(width or W, W); ProgressBar(total incl. 0, completed, width, pulse) -> <= that, == when colour is available; W 1..200 x colour system x "
             "no_color x env; non-trivial = wide rule characters, a title longer than W, or a bar narrower than W")
-    budget = {"quick": (4, 1000), "thorough": (16, 8000)}
+    budget = {"quick": (8, 1000), "thorough": (16, 8000)}
 
     def strategy(self, tier):
         rule = st.builds(lambda t, ch, al: {"k": "rule", "title": t, "characters": ch, "align": al}, st.one_of(st.just(""), GT.text_content(True)),
@@ -258,7 +258,7 @@ class ColumnsTrees(Part):
     rule = ("Columns(1-14 unique tokens, equal, expand, column_first, right_to_left, align, padding, title) at W >= widest token: every token exactly once, read in "
             "the documented order; Tree(<= 15 nodes, depth <= 4, expanded flags, multi-line labels): visible labels once, in depth-first order, each line "
             "prefixed by exactly 4 cells per level; non-trivial = columns with a partial last row, or a tree with a collapsed subtree and a multi-line label")
-    budget = {"quick": (4, 800), "thorough": (16, 8000)}
+    budget = {"quick": (8, 800), "thorough": (16, 8000)}
 
     def strategy(self, tier):
         cols = st.builds(lambda n, eq, ex, cf, rtl, al, p, t, w, first: {"k": "columns", "n": n, "equal": eq, "expand": ex, "column_first": cf, "right_to_left": rtl, "align": al, "padding": p, "title": t, "W": w, "first": first},
